@@ -211,6 +211,29 @@ def run_case(c):
             x = rng.integers(-8, 9, size=K.shape[0]).astype(float) / 8.0
             Eglob = float(0.5 * x @ (K @ x))
             Rglob = K @ x
+            # a SOLVED field for the implementation's own Calc_Energy / Calc_Reaction
+            solved = False
+            u = x.copy()
+            try:
+                with contextlib.redirect_stdout(io.StringIO()):
+                    cx = ref.coord[:, 0]
+                    n0 = np.where(np.abs(cx - cx.min()) < 1e-9)[0]
+                    n1 = np.where(np.abs(cx - cx.max()) < 1e-9)[0]
+                    simu.add_dirichlet(n0, [0.0] * dim, ["x", "y", "z"][:dim])
+                    simu.add_surfLoad(n1, [1.0, 0.5], ["x", "y"])
+                    u = np.asarray(simu.Solve(), dtype=float).copy()
+                    solved = bool(np.all(np.isfinite(u)) and np.abs(u).max() > 0)
+            except Exception:
+                solved = False
+            if not solved:
+                u = x.copy()
+                simu._Set_solutions(simu.problemType, u)
+            Eg_impl = float(simu.Calc_Energy(K, u))                 # dofs default: every dof of the mesh
+            gd = np.asarray(simu.Get_dofs(), dtype=int)
+            Rg_impl = np.zeros(K.shape[0])
+            Rg_impl[gd] = np.asarray(simu.Calc_Reaction(), dtype=float)
+            Es_impl = 0.0
+            Rs_impl = np.zeros(K.shape[0])
             Esum = 0.0
             Rsum = np.zeros(K.shape[0])
             worst = 0.0
@@ -229,9 +252,22 @@ def run_case(c):
                         worst_at = {"rank": r, "dof": int(dofs[i]), "node": int(dofs[i] // dim)}
                     Esum += float(0.5 * x[dofs] @ (Kr[dofs] @ x))
                     Rsum[dofs] += Kr[dofs] @ x
+                    # the implementation's own functions on the part, with the part's owned dofs
+                    # (MPI_SIZE == 1: Reduce_sum is the identity, the sum over the parts is done here)
+                    sr._Set_solutions(sr.problemType, u)
+                    Es_impl += float(sr.Calc_Energy(Kr, u, dofs))
+                    Rr = np.asarray(sr.Calc_Reaction(dofs.copy()), dtype=float)
+                    if Rr.shape[0] == dofs.shape[0]:
+                        Rs_impl[dofs] += Rr
+                    else:
+                        Rs_impl[:] = np.nan
             res["K"] = {"scale": scale, "max_row_diff": worst, "worst_at": worst_at,
                         "E_global": Eglob, "E_sum_parts": Esum,
-                        "R_diff": float(abs(Rsum - Rglob).max()), "R_scale": float(abs(Rglob).max())}
+                        "R_diff": float(abs(Rsum - Rglob).max()), "R_scale": float(abs(Rglob).max()),
+                        "impl": {"solved_field": solved, "E_global": Eg_impl, "E_sum_parts": Es_impl,
+                                 "E_formula_global": float(0.5 * u @ (K @ u)),
+                                 "R_diff": float(np.nanmax(np.abs(Rs_impl - Rg_impl))) if np.all(np.isfinite(Rs_impl)) else float("inf"),
+                                 "R_vs_Ku": float(abs(Rg_impl - K @ u).max()), "R_scale": float(max(abs(Rg_impl).max(), 1e-300))}}
         except Exception as ex:  # reported by the driver
             res["K"] = {"error": "%s: %s" % (type(ex).__name__, ex)}
     return res
